@@ -2,8 +2,10 @@
 package c20
 
 import (
+	"bytes"
 	"encoding/json"
 	"fmt"
+	"io"
 	"os"
 	"os/exec"
 	"path/filepath"
@@ -12,8 +14,10 @@ import (
 	"strconv"
 	"strings"
 	"sync"
+	"sync/atomic"
 	"time"
 
+	"filippo.io/age"
 	"filippo.io/age/internal/verifhook"
 	"filippo.io/age/xverif/internal/conc"
 	"filippo.io/age/xverif/internal/vk"
@@ -212,6 +216,7 @@ func Run(tier string) {
 		run.Distinct(sig)
 	}
 	verifhook.PointFn = nil
+	ioGated(run, shared)
 	run.Add("schedules_from_tlc", len(lines))
 	run.Add("schedules_forced", len(cases))
 	run.Sample(map[string]interface{}{"schedule": cases[len(cases)/2]})
@@ -311,4 +316,105 @@ func truncate(s string, n int) string {
 		return s[:n] + "…"
 	}
 	return s
+}
+
+// gatedReader delivers the header, then blocks until released: the Decrypt call using it is suspended between unwrapping
+// the file key and reading the payload nonce.
+type gatedReader struct {
+	b       []byte
+	pos     int
+	stopAt  int
+	blocked chan struct{}
+	release chan struct{}
+	once    sync.Once
+}
+
+func (g *gatedReader) Read(p []byte) (int, error) {
+	if g.pos >= g.stopAt {
+		g.once.Do(func() { close(g.blocked); <-g.release })
+	}
+	if g.pos >= len(g.b) {
+		return 0, io.EOF
+	}
+	end := len(g.b)
+	if g.pos < g.stopAt {
+		end = g.stopAt
+	}
+	n := copy(p, g.b[g.pos:end])
+	g.pos += n
+	return n, nil
+}
+
+// ioGated: one Decrypt is held at its payload while many other Decrypts with the SAME identity value run to completion;
+// when released it must still produce its own plaintext (an I/O schedule as interleaving, complementing the hook gates).
+func ioGated(run *vk.Run, shared map[string]*conc.Shared) {
+	trials := run.Pick(6, 40)
+	for _, k := range []string{"x25519", "scrypt", "ssh-ed25519", "ssh-rsa"} {
+		s := shared[k]
+		hdrEnd := bytes.Index(s.File, []byte("\n--- "))
+		if hdrEnd < 0 {
+			vk.Infra("no header end")
+		}
+		hdrEnd += 1 + bytes.IndexByte(s.File[hdrEnd+1:], '\n') + 1
+		var others [][]byte
+		var plains [][]byte
+		for i := 0; i < 8; i++ {
+			pt := []byte(fmt.Sprintf("other plaintext %d for %s", i, k))
+			f, err := conc.EncryptWith(s.Recipient, pt)
+			if err != nil {
+				vk.Infra("%v", err)
+			}
+			others, plains = append(others, f), append(plains, pt)
+		}
+		for t := 0; t < trials; t++ {
+			g := &gatedReader{b: s.File, stopAt: hdrEnd, blocked: make(chan struct{}), release: make(chan struct{})}
+			type res struct {
+				out []byte
+				err error
+			}
+			done := make(chan res, 1)
+			go func() {
+				r, err := age.Decrypt(g, s.Identity)
+				if err != nil {
+					done <- res{nil, err}
+					return
+				}
+				b, err := io.ReadAll(r)
+				done <- res{b, err}
+			}()
+			select {
+			case <-g.blocked:
+			case r := <-done:
+				vk.Infra("gated Decrypt finished before reaching the payload: %v", r.err)
+			case <-time.After(30 * time.Second):
+				vk.Infra("gated Decrypt did not reach the payload")
+			}
+			var wg sync.WaitGroup
+			var wrong int32
+			for j := 0; j < 2*runtime.GOMAXPROCS(0); j++ {
+				wg.Add(1)
+				go func(j int) {
+					defer wg.Done()
+					r, err := age.Decrypt(bytes.NewReader(others[j%len(others)]), s.Identity)
+					if err != nil {
+						atomic.AddInt32(&wrong, 1)
+						return
+					}
+					b, err := io.ReadAll(r)
+					if err != nil || !bytes.Equal(b, plains[j%len(others)]) {
+						atomic.AddInt32(&wrong, 1)
+					}
+				}(j)
+			}
+			wg.Wait()
+			close(g.release)
+			r := <-done
+			run.Eval(1)
+			if r.err != nil || !bytes.Equal(r.out, s.Plain) || wrong > 0 {
+				run.Violation("C20:result-differs-under-io-schedule:"+k, fmt.Sprintf("a Decrypt suspended before its payload while %d other Decrypts shared the %s identity value: %v (%d of the others wrong)", 2*runtime.GOMAXPROCS(0), k, r.err, wrong), map[string]interface{}{"check": "C20.iogated", "kind": k})
+				break
+			}
+		}
+		run.Distinct("io-gated:" + k)
+	}
 }
